@@ -16,6 +16,7 @@ UNITS = {
     "sig_paths": {"template": "contracts/sig_paths.vrs", "rlimit": 60},
     "fast_forward": {"template": "contracts/fast_forward.vrs", "rlimit": 60},
     "fingerprint": {"template": "contracts/fingerprint.vrs", "rlimit": 60},
+    "validate_conds": {"template": "contracts/validate_conds.vrs", "rlimit": 60},
     "mempool_visitor": {"template": "contracts/mempool_visitor.vrs", "rlimit": 60},
     "generator_len": {"template": "contracts/generator_len.vrs", "rlimit": 30},
     "aggsig": {"template": "contracts/aggsig.vrs", "rlimit": 60},
@@ -69,8 +70,8 @@ PROPS = {
         "level": "proof",
         "technique": "Verus contracts on the real check_time_locks (extracted verbatim): iff-postcondition against per-assertion saturating-arithmetic spec, loop invariant over all spends",
         "level_text": "Deductive proof (Verus/Z3) over all inputs: check_time_locks returns Ok exactly when every folded assertion holds with saturating sums; unbounded in number of spends and in all u32/u64 values.",
-        "level_note": "Assumes vstd HashMap model and key model for Bytes32; nowrap=true mode only. Folding (max for after-locks, min for before-locks, birth agreement, impossible-window rejection, relative-condition mark) is proved for parse_conditions against the effect spec; the spec-level lemma fold-then-check == check-each and the ephemeral check in validate_conditions are not yet machine-checked.",
-        "components": [V("time_locks"), V("conditions_effects")],
+        "level_note": "Assumes vstd HashMap model and key model for Bytes32; nowrap=true mode only. Folding (max for after-locks, min for before-locks, birth agreement, impossible-window rejection, relative-condition mark) is proved for parse_conditions against the effect spec; validate_conditions (unit validate_conds) is proved to accept iff no absolute before-lock is <= the absolute after-lock and no spend with a relative lock is ephemeral (iff, with is_ephemeral against its definition); the spec-level lemma fold-then-check == check-each is not machine-checked.",
+        "components": [V("time_locks"), V("conditions_effects"), V("validate_conds")],
         "assumptions": [
             "vstd HashMap model; obeys_key_model::<Bytes32>() assumed (derived Hash/Eq on a byte array)",
             "nowrap=true only (legacy wrapping mode is outside the statement)",
@@ -105,7 +106,7 @@ PROPS["C01"] = {
     "technique": "Verus contracts on the real condition parser (parse_opcode, sanitizers, list helpers, SpendId::parse, parse_args extracted verbatim) proved equal to a table-driven rule spec over all allocator trees, opcodes and flag words",
     "level_text": "Deductive proof (Verus/Z3), unbounded in tree shape, list length and flags: each condition is accepted or rejected and decoded exactly as the rule table (DESIGN Appendix A) prescribes (tier 1, iff), and whenever parse_conditions / process_single_spend accept a spend, its summary (costs, relative/absolute locks, birth assertions, reserved fee, added amounts, created-coin set, coin identity) equals the fold of the per-condition effect spec over the condition list (tier 2).",
     "level_note": "Assumed: clvmr Allocator accessor contracts (abstract immutable tree), bitflags semantics with constants read from flags.rs each run, 2-byte cost table entries (decided by native-eval under C04). Error codes are not part of the contract, accept/reject and the decoded value are.",
-    "components": [V("conditions_effects"), V("mempool_visitor")],
+    "components": [V("conditions_effects"), V("mempool_visitor"), V("validate_conds")],
     "assumptions": [
         "clvmr::Allocator accessor contracts over an abstract immutable tree (shims/clvmr.rs)",
         "bitflags contains() == bit test on the constants read from flags.rs",
@@ -113,7 +114,7 @@ PROPS["C01"] = {
     ],
     "not_covered": [
         "the summary contract of parse_conditions is one-directional (accept ==> summary equals the rule spec); rejection for un-modelled reasons (bad keys, message modes) is not characterised",
-        "announcement / concurrent / message / ephemeral bookkeeping and validate_conditions' deferred cross-spend checks; signature pairs (C05)",
+        "that parse_conditions records every announcement / concurrent / message / ephemeral assertion into ParseState (the sets validate_conditions reads): validate_conditions is proved against the recorded sets (unit validate_conds, iff), the recording itself is not in the summary projection; Message::make_key framing",
         "MempoolVisitor::post_spend / post_process (iterator closures); new_spend and condition are under contract (mempool_visitor unit)",
     ],
 }
@@ -243,11 +244,10 @@ PROPS["C02"] = {
     "level": "proof",
     "technique": "Verus contracts on the real process_single_spend / compute_coin_id / Coin::coin_id / parse_conditions: coin-id formula over the canonical amount, double-spend exclusion via the spent-coin map, duplicate-output exclusion and exact totals",
     "level_text": "Deductive proof: every accepted spend has a 32-byte parent and puzzle hash and a canonical amount; its coin id is sha256(parent ‖ puzzle hash ‖ canon(amount)) (and Coin::coin_id computes the same formula); the id was not spent before in the bundle (else DoubleSpend); removal_amount grows by exactly the coin amount, addition_amount by exactly the created amounts, no (puzzle hash, amount) is created twice by one spend, u128 totals cannot overflow.",
-    "level_note": "The final conservation test in validate_conditions (additions + fee <= removals) and the puzzle-hash == tree-hash call sites in the drivers are not yet under contract. sha256 uninterpreted; NewCoinSet identity assumed to be (puzzle_hash, amount) as NewCoin's PartialEq/Hash implement it.",
-    "components": [V("conditions_effects"), V("int_encoders")],
+    "level_note": "The final conservation test in validate_conditions (additions <= removals, reserved fee <= removals - additions) is proved in unit validate_conds (iff); the puzzle-hash == tree-hash call sites in the drivers are not yet under contract. sha256 uninterpreted; NewCoinSet identity assumed to be (puzzle_hash, amount) as NewCoin's PartialEq/Hash implement it.",
+    "components": [V("conditions_effects"), V("int_encoders"), V("validate_conds")],
     "assumptions": ["Sha256 ghost model", "HashMap<Arc<Bytes32>, usize> / HashSet<NewCoin> insertion semantics (shims/cond_env.rs)"],
     "not_covered": [
-        "validate_conditions: MintingCoin / ReserveFeeConditionFailed comparisons over the bundle totals",
         "drivers: reported puzzle hash is the tree hash of the revealed puzzle (run_block_generator2, run_spendbundle call sites)",
     ],
 }
